@@ -15,14 +15,18 @@ from . import integ_common as ic
 
 PROP = "C07"
 LEAN_MODULES = ["MiciVerif.Props.C07"]
-LEAN_EXTRA = ["MiciVerif.Model.Integrators", "MiciVerif.Proto"]
+LEAN_EXTRA = ["MiciVerif.Model.Integrators", "MiciVerif.Lemmas.IntegratorsExec", "MiciVerif.Proto"]
 
 
 # ---------------------------------------------------------------------------------------
 # FILLED IN BY LEAN-SIDE AUTHOR
-def correspondence(ctx):  # noqa: ARG001
-    """Model-vs-implementation comparison (Lean driver).  FILLED IN BY LEAN-SIDE AUTHOR."""
-    return
+def correspondence(ctx):
+    """Lean model flows (exact rationals; cos/sin values, eigenvectors and frequencies are the
+    implementation's own, checked against their defining equations) vs real h1_flow / h2_flow /
+    dh2_flow_dmom."""
+    from . import integ_corr
+
+    integ_corr.flow_cases(ctx, common.rng_for(ctx, 1), ctx.n(60, 600))
 
 
 # ---------------------------------------------------------------------------------------
